@@ -394,6 +394,19 @@ def dot_rules(ctx, flavours):
                     bi, args = calls[0]
                     ns = nest(bi)
                     at = args[2] if isinstance(args, tuple) and args[0] == 'aggr' else ()
+                    # what the callback supplies reaches the text: some formatted write takes a value derived from this call
+                    used = any(disp and any(term_mentions(d, lambda z: isinstance(z, tuple) and z and z[0] == 'call' and len(z) > 3 and z[3] == bi) for d in disp)
+                               for _, disp, _ in _emits(F, b))
+                    if not used:
+                        # ... or it is handed to a helper of the container together with the text being built
+                        for hbi, ht in calls_in(b, lambda t_: t_.get('local') and t_.get('res') in F.bodies):
+                            has_text = any(a_.get('k') in ('move', 'copy') and F.types[b['locals'][a_['pl']['l']]]['k'] == 'ref' and
+                                           'std::string::String' in F.types[b['locals'][a_['pl']['l']]].get('s', '') for a_ in ht['args'])
+                            takes_cb = any(term_mentions(pv.of_operand(a_), lambda z: isinstance(z, tuple) and z and z[0] == 'call' and len(z) > 3 and z[3] == bi) for a_ in ht['args'])
+                            if has_text and takes_cb:
+                                used = True
+                    if not used:
+                        why.append('the attributes supplied by callback P%d are not written' % p)
                     if len(at) == 1 and at[0] == P1_:
                         if ns:
                             why.append('graph attribute callback runs inside a loop')
@@ -421,8 +434,12 @@ def dot_rules(ctx, flavours):
                     n += 1
                     if not nm.endswith('::new_display'):
                         odd.append('%s@%s' % (nm.split('::')[-1], t['sp']))
+            for bi, disp, tpl in _emits(F, b):
+                dt = _decode_template(tpl)
+                if '{:#opts' in dt or '{?}' in dt:
+                    odd.append('placeholder with width / precision / fill / flags in %r@%s' % (dt[:40], F.where(b, bi)))
             if n:
-                out.append(Obl('DOT-fmt', b['q'], b['span'], 'all %d formatted values use Display (written as supplied)' % n, not odd, 'ok' if not odd else 'formatted with ' + ', '.join(odd)))
+                out.append(Obl('DOT-fmt', b['q'], b['span'], 'all %d formatted values use plain Display placeholders (written as supplied)' % n, not odd, 'ok' if not odd else 'formatted with ' + ', '.join(odd)))
     return out
 
 
@@ -448,8 +465,19 @@ def _decode_template(v):
         if c < 0x80:
             out.append(raw[i:i + c].decode('utf-8', 'replace'))
             i += c
+        elif c == 0x80 and i + 2 <= len(raw):
+            n = raw[i] | (raw[i + 1] << 8)
+            i += 2
+            out.append(raw[i:i + n].decode('utf-8', 'replace'))
+            i += n
+        elif c >= 0xc0:
+            # placeholder; low bits: 1 = flags/fill (4 bytes follow), 2 = width (2 bytes), 4 = precision (2 bytes), 8 = explicit
+            # argument index (2 bytes).  Anything but the index changes how the value is rendered (padding, truncation, sign).
+            opts = c & 0x3f
+            i += (4 if opts & 1 else 0) + (2 if opts & 2 else 0) + (2 if opts & 4 else 0) + (2 if opts & 8 else 0)
+            out.append('{}' if not (opts & 0x37) else '{:#opts%d}' % (opts & 0x37))
         else:
-            out.append('{}')
+            out.append('{?}')
     return ''.join(out)
 
 
